@@ -111,14 +111,14 @@ static void judge_valid(const vector<Poly> &sc, const vector<Poly> &scS, P a, P 
             for (auto &o : scS) for (auto &v : o.v) { double cr = (bx - ax) * (v.y - ay) - (v.x - ax) * (by - ay), dt = (v.x - ax) * (bx - ax) + (v.y - ay) * (by - ay); if (!(cr == 0 && dt > 0 && dt < L)) continue;
                 bool onB = false; for (size_t e = 0; e < sh.v.size(); e++) { P u = sh.v[e], w2 = sh.v[(e + 1) % sh.v.size()]; if (cross(u, w2, v) == 0 && dot(u, w2, v) >= 0 && dot(w2, u, v) >= 0) onB = true; } if (onB) tv = true; }
             if (tv && !ortho) kc2.push_back("through_vertex");
-            // class chord_from_newer_vertex: both ends of the segment lie on the cut shape's boundary and at least one of them is a
-            // vertex of a shape created AFTER the cut shape (the edge was produced by the visibility sweep for the newer shape).
+            // class chord_from_newer_vertex: an end of the segment lies on the cut shape's boundary and is a vertex of a shape created
+            // AFTER the cut shape (the edge was produced by the visibility sweep for the newer shape, whose centre sat on that boundary).
             // An edge between vertices of OLDER shapes that a newly added shape fails to block is NOT in the class.
             { size_t ci = &sh - &scS[0]; bool aOn = false, bOn = false, newer = false;
               for (size_t e = 0; e < sh.v.size(); e++) { P u = sh.v[e], w2 = sh.v[(e + 1) % sh.v.size()]; P pa{(ll)ax, (ll)ay}, pb{(ll)bx, (ll)by};
                   if (cross(u, w2, pa) == 0 && dot(u, w2, pa) >= 0 && dot(w2, u, pa) >= 0) aOn = true; if (cross(u, w2, pb) == 0 && dot(u, w2, pb) >= 0 && dot(w2, u, pb) >= 0) bOn = true; }
-              for (size_t j = ci + 1; j < scS.size(); j++) for (auto &v : scS[j].v) if ((v.x == ax && v.y == ay) || (v.x == bx && v.y == by)) newer = true;
-              if (aOn && bOn && newer && !ortho) kc2.push_back("chord_from_newer_vertex"); }
+              for (size_t j = ci + 1; j < scS.size(); j++) for (auto &v : scS[j].v) if ((aOn && v.x == ax && v.y == ay) || (bOn && v.x == bx && v.y == by)) newer = true;
+              if (newer && !ortho) kc2.push_back("chord_from_newer_vertex"); }
             ctx.violation("through_shape", kc2, desc, route_str(r)); return; }
     if (ortho) for (size_t k = 1; k < r.size(); k++) if (r.ps[k].x != r.ps[k - 1].x && r.ps[k].y != r.ps[k - 1].y) { ctx.violation("not_orthogonal", kc, desc, route_str(r)); return; }
 }
